@@ -54,6 +54,66 @@ func c35(x *Ctx) {
 	c.NotCovered = "races on objects handed between goroutines through channels (spans, traces; see C16 for the one ownership rule that is decided), library internals, and anything the lock discipline does not express."
 	funcs := x.RepoFuncs()
 	const r1 = "C35.guarded-by"
+	hasField := func(nt *types.Named, name string) bool {
+		st, ok := nt.Underlying().(*types.Struct)
+		if !ok {
+			return false
+		}
+		for i := 0; i < st.NumFields(); i++ {
+			if st.Field(i).Name() == name {
+				return true
+			}
+		}
+		return false
+	}
+	// checkField decides the guarded-by obligation for every access of one field
+	checkField := func(nt *types.Named, strct, fld, mutex, origin string) {
+		acc := eng.FieldAccesses(funcs, structFieldPred(nt, fld))
+		seen := map[string]bool{}
+		for _, a := range acc {
+			c.Examined++
+			fn := eng.Root(a.Fn)
+			key := strct + "." + fld + "/" + BaseName(fn)
+			mode := "read"
+			if a.Write {
+				mode = "write"
+			}
+			if seen[key+mode] {
+				continue
+			}
+			held := heldAt(a.Instr, nt, mutex, a.Write)
+			why := ""
+			switch {
+			case held:
+				why = "lock held"
+			case isFreshBase(a.Base):
+				held, why = true, "construction"
+			case x.beforeConcurrency(a.Instr):
+				held, why = true, "start-up before any goroutine or callback is registered"
+			case a.Fn == fn && x.callerHolds(fn, nt, mutex, a.Write, 0):
+				held, why = true, "every caller holds the lock"
+			case lockExempt[strct+"."+fld+"/"+BaseName(fn)] != "":
+				held, why = true, "exempt: "+lockExempt[strct+"."+fld+"/"+BaseName(fn)]
+			}
+			if !held && origin == "inferred" {
+				// an inferred row is only as good as its evidence: start-up-only functions are not concurrent
+				if so, _ := x.startupOnly(fn); so {
+					held, why = true, "start-up function"
+				}
+			}
+			if held {
+				seen[key+mode] = true
+				c.Hold(r1, key+":"+mode, x.Pos(a.Instr), why+origin)
+				continue
+			}
+			seen[key+mode] = true
+			need := mutex
+			if a.Write {
+				need += " (write lock)"
+			}
+			c.Violate(r1, key+":"+mode, x.Pos(a.Instr), strct+"."+fld+" is guarded by "+mutex+" at its other accesses but "+mode+" here without "+need+": a concurrent writer makes this a data race")
+		}
+	}
 	for _, row := range guardedBy {
 		nt := x.P.Named(row.rel, row.strct)
 		if nt == nil {
@@ -61,49 +121,17 @@ func c35(x *Ctx) {
 			continue
 		}
 		for _, fld := range row.fields {
-			acc := eng.FieldAccesses(funcs, structFieldPred(nt, fld))
-			if len(acc) == 0 {
-				c.Unresolved(r1, row.strct+"."+fld, "guarded field not found or never accessed")
+			if !hasField(nt, fld) {
+				// renamed or removed: if it lives on under another name and is still written under the mutex, the
+				// inference below puts it back under the same obligation
+				c.Info["table_rows_without_field"] = append(asStrings(c.Info["table_rows_without_field"]), row.strct+"."+fld)
 				continue
 			}
-			seen := map[string]bool{}
-			for _, a := range acc {
-				c.Examined++
-				fn := eng.Root(a.Fn)
-				key := row.strct + "." + fld + "/" + BaseName(fn)
-				mode := "read"
-				if a.Write {
-					mode = "write"
-				}
-				if seen[key+mode] {
-					continue
-				}
-				held := heldAt(a.Instr, nt, row.mutex, a.Write)
-				why := ""
-				switch {
-				case held:
-					why = "lock held"
-				case isFreshBase(a.Base):
-					held, why = true, "construction"
-				case x.beforeConcurrency(a.Instr):
-					held, why = true, "start-up before any goroutine or callback is registered"
-				case a.Fn == fn && x.callerHolds(fn, nt, row.mutex, a.Write, 0):
-					held, why = true, "every caller holds the lock"
-				case lockExempt[row.strct+"."+fld+"/"+BaseName(fn)] != "":
-					held, why = true, "exempt: "+lockExempt[row.strct+"."+fld+"/"+BaseName(fn)]
-				}
-				if held {
-					seen[key+mode] = true
-					c.Hold(r1, key+":"+mode, x.Pos(a.Instr), why)
-					continue
-				}
-				seen[key+mode] = true
-				need := row.mutex
-				if a.Write {
-					need += " (write lock)"
-				}
-				c.Violate(r1, key+":"+mode, x.Pos(a.Instr), row.strct+"."+fld+" is guarded by "+row.mutex+" at its other accesses but "+mode+" here without "+need+": a concurrent writer makes this a data race")
+			if len(eng.FieldAccesses(funcs, structFieldPred(nt, fld))) == 0 {
+				c.Unresolved(r1, row.strct+"."+fld, "guarded field is never accessed")
+				continue
 			}
+			checkField(nt, row.strct, fld, row.mutex, "")
 		}
 	}
 	c.Min(r1, 120)
@@ -136,7 +164,7 @@ func c35(x *Ctx) {
 			if inTable[full] || isSyncType(f.Type()) {
 				continue
 			}
-			live := ""
+			live, liveMutex := "", ""
 			for _, a := range eng.FieldAccesses(funcs, structFieldPred(ms.Named, f.Name())) {
 				if !a.Write || isFreshBase(a.Base) || x.beforeConcurrency(a.Instr) {
 					continue
@@ -148,6 +176,7 @@ func c35(x *Ctx) {
 				for _, m := range ms.Mutexes {
 					if heldAt(a.Instr, ms.Named, m, true) {
 						held = true
+						liveMutex = m
 					}
 				}
 				if !held {
@@ -162,7 +191,11 @@ func c35(x *Ctx) {
 			c.Examined++
 			switch {
 			case strings.HasPrefix(live, "locked:"):
-				c.Violate(r1b, full, strings.TrimPrefix(live, "locked:"), full+" is written under the struct's mutex by live code but is not in the checker's guarded-by table: add it (after reading its accesses) so that unlocked accesses are reported")
+				// written under the struct's mutex by live code but not in the explicit table (a new or renamed field):
+				// the lock at that write is the evidence that the field is shared, so it gets the same obligation as a
+				// table row – every other access must hold the mutex too (contradiction rule: locked here, unlocked there)
+				c.Hold(r1b, full, strings.TrimPrefix(live, "locked:"), "not in the explicit table; inferred as guarded by "+liveMutex+" from a locked live write – all its accesses are checked under "+r1)
+				checkField(ms.Named, ms.Named.Obj().Name(), f.Name(), liveMutex, " (inferred row)")
 			case notShared[full] != "":
 				c.Hold(r1b, full, live, "declared not shared: "+notShared[full])
 			default:
@@ -323,6 +356,11 @@ func c35(x *Ctx) {
 	// ---- per-worker confinement: the lock-free worker state is touched by its own goroutine only -------------
 	x.workerConfined("C35.worker-confined", x.PkgFuncs("collect"))
 	c.Min("C35.worker-confined", 4)
+}
+
+func asStrings(v any) []string {
+	s, _ := v.([]string)
+	return s
 }
 
 func isFreshBase(base ssa.Value) bool {
